@@ -109,6 +109,15 @@ def layout_handler_semicolon_optional(dispatcher, node, before, after, prev):
         yield StreamFragment(';', lineno, colno, None, None)
 
 
+def layout_handler_semicolon_openbrace(dispatcher, node, before, after, prev):
+    # for a statement terminator directly followed by an opening brace of
+    # a block (the node is that of the block): the semicolon is required,
+    # its position is left to be inferred.
+    yield StreamFragment(';', 0, 0, None, None)
+    _, lineno, colno = node.getpos('{', 0)
+    yield StreamFragment('{', lineno, colno, None, None)
+
+
 def layout_handler_openbrace(dispatcher, node, before, after, prev):
     # required layout handler for the OpenBlock Format rule.
     _, lineno, colno = node.getpos('{', 0)
